@@ -624,9 +624,9 @@ def reference(op, drain=False):
         status, res = kernel.forked(work, timeout=60)
         if status != 'ok':
             raise RuntimeError('reference execution failed: %s %s' % (status, res))
-        _refs[key] = res
         if len(_refs) > 50000:
             _refs.clear()
+        _refs[key] = res
     return _refs[key]
 
 
